@@ -243,6 +243,32 @@ let run_actor_gen (legacy : bool) (dedup : bool) (toks : string list) : string =
     String.concat " | " outs
   | _ -> "?bad-case"
 
+(* ---- component: transfer (C19) --------------------------------------------- *)
+(* Transfer.v: with a checked decoder the received state IS the sent state
+   (C19_received_state_is_the_sent_state), and bytes that do not decode are an error
+   (C19_undecodable_state).  The sender's state is the actor model's state after the case's
+   requests. *)
+let run_transfer (toks : string list) : string =
+  match toks with
+  | "tr" :: pr :: reqs ->
+    let probes =
+      let p = String.sub pr 7 (String.length pr - 7) in
+      List.filter (fun x -> x <> "") (String.split_on_char ',' p)
+    in
+    let two = nat_of_int 2 in
+    let state = ref (Model.empty_set two, Model.gmap_empty_store) in
+    List.iter
+      (fun tok ->
+        match parse_request tok with
+        | Some (r, o) ->
+          let x', _ = Model.actor_step false true !state r o in
+          state := x'
+        | None -> ())
+      reqs;
+    "ok " ^ show_set_dump (fst !state) probes
+  | "bad" :: _ -> "err"
+  | _ -> "?bad-case"
+
 (* ---- component: cluster (C01 C06) ----------------------------------------- *)
 let run_cluster (toks : string list) : string =
   match toks with
@@ -458,6 +484,9 @@ let () =
     | "cluster" -> run_cluster
     | "clock" -> run_clock
     | "actor-legacy-d2" -> run_actor_gen false false
+    | "transfer" -> run_transfer
+    (* hx-restart: "<backend> act ..." - the actor model, whatever the backend *)
+    | "restart" -> (fun toks -> match toks with _ :: rest -> run_actor_gen false true rest | [] -> "?bad-case")
     | _ -> prerr_endline ("unknown component " ^ comp); exit 2
   in
   let out = Buffer.create 65536 in
